@@ -84,7 +84,7 @@ class Base:
                    'histories are generated from a pool of at most a few elements per kind and two documents; the '
                    'theorems have no such bound',
                    '32-bit wrap-around of ID counters is outside the model and the generators']
-    nops_quick, ncases_quick, nops_thorough, ncases_thorough = 30, 2500, 40, 60000
+    nops_quick, ncases_quick, nops_thorough, ncases_thorough = 30, 2500, 40, 20000
     gen_args = {}
 
     @classmethod
